@@ -183,7 +183,10 @@ macro_rules! client_ctx {
 // scenario
 
 const STATUSES: [u16; 9] = [200, 201, 204, 400, 401, 403, 404, 500, 503];
-const BODY_KINDS: [&str; 8] = ["exact", "reprefixed", "empty", "non-xml", "truncated", "soap-fault", "html(probe)", "fault-with-2xx(probe)"];
+const BODY_KINDS: [&str; 9] = ["exact", "reprefixed", "empty", "non-xml", "truncated", "soap-fault", "html(probe)", "fault-with-2xx(probe)", "text-before-envelope"];
+/// Plain text a gateway or a MIME wrapper may put in front of the envelope: such a body is not a response envelope.
+/// (No blank-only or BOM preamble: whether that still "is that envelope" the statement does not say.)
+const PREAMBLES: [&str; 4] = ["Warning: upstream degraded, reply follows\n", "--MIME_boundary\r\nContent-Type: text/xml; charset=utf-8\r\n\r\n", "OK ", "200\n"];
 const TRANSPORTS: [&str; 6] = ["ok", "refused", "closed-before-head", "closed-mid-body", "ok-in-chunks", "closed-after-complete-body-short-of-content-length"];
 const CREDS: [&str; 6] = ["absent", "user/secret", "empty strings", "colon in both", "non-ascii", "300-char password"];
 
@@ -279,7 +282,7 @@ fn decode_call(ch: &mut Chooser, n_ops: usize) -> CallSpec {
         variant: ch.choose("request_variant", 3),
         mutmask: ch.choose("mutation_mask", 1024),
         status: ch.choose("status", 9) as usize,
-        body_kind: ch.choose("body", 8) as usize,
+        body_kind: ch.choose_wide("body", 8, BODY_KINDS.len() as u64) as usize,
         transport: ch.choose("transport", 6) as usize,
         trunc: ch.choose("truncate_at", 1 << 20),
         splits: [ch.choose("split", 1 << 16), ch.choose("split", 1 << 16), ch.choose("split", 1 << 16)],
@@ -484,6 +487,7 @@ fn run_scenario(infos: &[ClientInfo], insts: &[Instances], sc: &Scenario, ch: &m
                 exact[..floor_char(&exact, t.min(exact.len().saturating_sub(1)))].to_string()
             }
             5 | 7 => FAULT.to_string(),
+            8 => format!("{}{exact}", PREAMBLES[(c.trunc % PREAMBLES.len() as u64) as usize]),
             _ => HTML.to_string(),
         };
         let transport = match c.transport {
@@ -650,7 +654,7 @@ fn run_scenario(infos: &[ClientInfo], insts: &[Instances], sc: &Scenario, ch: &m
         let delivered_full = matches!(c.transport, 0 | 4) || (c.transport == 5 && c.framing == 1);
         let status_ok = (200..300).contains(&status) && status != 204 && status != 205;
         let gated_ok = delivered_full && status_ok && matches!(c.body_kind, 0 | 1);
-        let gated_err = !delivered_full || (400..600).contains(&status) || matches!(c.body_kind, 2 | 3 | 4) || status == 204;
+        let gated_err = !delivered_full || (400..600).contains(&status) || matches!(c.body_kind, 2 | 3 | 4 | 8) || status == 204;
         match &result {
             CallResult::Value(dbg) => {
                 facts.probes.push("calls_returning_value".into());
@@ -869,6 +873,7 @@ fn build_tapes(infos: &[ClientInfo], property: &str, tier: &str, seed: u64) -> (
     let thorough = tier == "thorough";
     let mut tapes = Vec::new();
     let mut n_enum = 0u64;
+    let mut n_preamble = 0u64;
     let base = CallSpec { op: 0, variant: 0, mutmask: 0, status: 0, body_kind: 0, transport: 0, trunc: 0, splits: [0; 3], latency: [0; 3], cut: 0, wide: 0, framing: 0 };
     if property == "C16" {
         // the script product, one call at a time, for every operation of every client
@@ -897,6 +902,22 @@ fn build_tapes(infos: &[ClientInfo], property: &str, tier: &str, seed: u64) -> (
                                 }
                             }
                         }
+                    }
+                }
+                // text in front of the complete envelope (enumerated only: the seeded mixes keep drawing the first 8 kinds)
+                for pre in 0..PREAMBLES.len() as u64 {
+                    for (status, transport, variant, framing) in [(0usize, 0usize, 0u64, 0u64), (0, 4, 1, 0), (1, 0, 1, 1), (1, 4, 0, 0), (0, 0, 1, 1)] {
+                        let mut c = base.clone();
+                        c.op = op;
+                        c.body_kind = 8;
+                        c.status = status;
+                        c.transport = transport;
+                        c.variant = variant;
+                        c.framing = framing;
+                        c.trunc = pre;
+                        c.splits = [3 + pre, 40 + pre * 7, 90];
+                        tapes.push(encode_single(ci, pre % 2, &c));
+                        n_preamble += 1; // (not n_enum: that counter also indexes the derived random fields of the product)
                     }
                 }
                 // truncation at boundaries + seeded offsets; adversarial credentials
@@ -1046,7 +1067,7 @@ fn build_tapes(infos: &[ClientInfo], property: &str, tier: &str, seed: u64) -> (
         }
         tapes.push(v);
     }
-    (tapes, json!({"enumerated_single_call_scripts": n_enum, "seeded_runs": n_seeded, "note_status": "599, 499, 299 are the class boundaries", "dimensions": {"status": STATUSES, "further_statuses": WIDE_STATUSES, "body": BODY_KINDS, "transport": TRANSPORTS, "credentials": CREDS}}))
+    (tapes, json!({"enumerated_single_call_scripts": n_enum + n_preamble, "of_which_text_before_envelope": n_preamble, "seeded_runs": n_seeded, "note_status": "599, 499, 299 are the class boundaries", "dimensions": {"status": STATUSES, "further_statuses": WIDE_STATUSES, "body": BODY_KINDS, "transport": TRANSPORTS, "credentials": CREDS}}))
 }
 
 fn main() {
